@@ -3,3 +3,4 @@ import Props.C01
 import Props.C02
 import Props.C12
 import Props.C08
+import Props.C07
